@@ -301,6 +301,8 @@ class Model(object):
         W = np.zeros((self.npt(), self.n()+1))
         if self.precondition:
             approx_delta = sqrt(np.max(self.distances_to_xopt()))  # largest distance to xopt ~ delta
+            if approx_delta == 0.0:
+                approx_delta = 1.0  # every point coincides with xopt (e.g. all clipped onto one bound): nothing to scale by
         else:
             approx_delta = 1.0
 
